@@ -138,9 +138,23 @@ def gen_structure(rng, fmt=None, hard=False, natoms=None):
             U = numpy.zeros((3, 3))
             for i in range(3):
                 U[i, i] = _r(rng, 0.002, 0.08, nd) or 0.002
+            shape = rng.random()
+            if shape < 0.15:
+                # site-symmetry shaped tensors: equal diagonal (3-fold axis of a cubic site), two equal entries
+                U[1, 1] = U[2, 2] = U[0, 0]
+            elif shape < 0.25:
+                U[1, 1] = U[0, 0]
             for (i, j) in [(0, 1), (0, 2), (1, 2)]:
                 if rng.random() < 0.7:
                     U[i, j] = U[j, i] = _r(rng, -0.0015, 0.0015, nd)
+            if shape < 0.15:
+                # all off-diagonal terms equal and non-zero, or only one of them present
+                v = _r(rng, 0.0003, 0.0015, nd) * rng.choice([-1, 1])
+                if rng.random() < 0.5:
+                    U[0, 1] = U[1, 0] = U[0, 2] = U[2, 0] = U[1, 2] = U[2, 1] = v
+                else:
+                    U[0, 1] = U[1, 0] = U[1, 2] = U[2, 1] = 0.0
+                    U[0, 2] = U[2, 0] = v
             s.addNewAtom(el, xyz=xyz, occupancy=occ, U=U)
     if natoms and rng.random() < 0.12:
         s[rng.randrange(natoms)].label = rng.choice(["C1", "Ni2", "X", "OW"])
